@@ -96,7 +96,7 @@ def constraint(draw, c, spec, T, design, kinds=None):
     if kind == "min":
         return {"kind": "min", "k": draw(st.one_of(st.integers(1, T + 4), st.sampled_from([T, T + 1, 2 * T, 2 * T + 1])))}
     if kind == "latin":
-        basics = [f["name"] for f in spec["factors"] if f["name"] in design]
+        basics = [f["name"] for f in spec["factors"] if f["name"] in design] or [f["name"] for f in spec["factors"]]
         n = draw(st.integers(1, min(3, len(basics))))
         return {"kind": "latin", "factors": list(draw(st.permutations(basics))[:n])}
     dnames = [d["name"] for d in spec["derived"] if d["name"] in design]
@@ -274,7 +274,7 @@ def _snap_pins(draw, spec, always=False):
 
 
 @st.composite
-def design_spec(draw, c=None):
+def _design_spec_raw(draw, c=None):
     c = c or DEFAULT
     kind = draw(st.sampled_from(c["blocks"]))
     # Merge / Nest need a crossable factor per member block: construct enough factors instead of discarding the case later
@@ -350,7 +350,7 @@ COMPANIONS = {
 
 
 @st.composite
-def scenario_spec(draw, c=None):
+def _scenario_spec_raw(draw, c=None):
     c = c or DEFAULT
     k = draw(st.integers(2, 3))
     feats = set(draw(st.lists(st.sampled_from(SCENARIO_FEATURES), min_size=k, max_size=k, unique=True)))
@@ -505,6 +505,34 @@ def scenario_spec(draw, c=None):
             f["levels"] = f["levels"][:1]
     spec["scenario"] = sorted(feats)
     return _snap_pins(draw, spec, always="pin" in feats)
+
+
+GEN_ERRORS = {}
+
+
+@st.composite
+def guarded(draw, strat):
+    """A programming error inside a generator (an empty choice list for a rare combination of options) must not turn a
+    whole check into a harness error: the example is rejected and counted.  VERIF_STRICT_GEN=1 (set by tools/burnin.sh)
+    re-raises, so that such errors are seen and repaired during development."""
+    import os
+    from hypothesis import reject
+    from hypothesis.errors import InvalidArgument
+    try:
+        return draw(strat)
+    except (InvalidArgument, IndexError, KeyError, ValueError, ZeroDivisionError) as e:
+        if os.environ.get("VERIF_STRICT_GEN"):
+            raise
+        GEN_ERRORS[type(e).__name__] = GEN_ERRORS.get(type(e).__name__, 0) + 1
+        reject()
+
+
+def design_spec(c=None):
+    return guarded(_design_spec_raw(c))
+
+
+def scenario_spec(c=None):
+    return guarded(_scenario_spec_raw(c))
 
 
 def mixed_spec(c=None, p_scenario=0.5):
